@@ -39,6 +39,8 @@ struct Cut {
   struct KEntry { const char* name; int64_t k; int shape; cut_fn fn; };
   const KEntry* ktable = nullptr; int nk = 0;
   struct PEntry { const char* postfix; int kind; int64_t (*fn)(int64_t, int64_t, int64_t, int64_t*); };
+  struct SEntry { const char* name; int64_t n; int type; int shape; cut_fn fn; };
+  const SEntry* stable = nullptr; int ns = 0;
   const PEntry* ptable = nullptr; int np = 0; const int64_t* kconsts = nullptr; int nkc = 0;
   int (*ub_count)() = nullptr;
   const CutUbEvent* (*ub_events)() = nullptr;
@@ -106,6 +108,7 @@ static inline bool cut_load_k(Cut& c, const std::string& kdir, std::string& err)
   c.ktable = tab(&c.nk);
   auto ptab = (const Cut::PEntry* (*)(int*))dlsym(h, "cutp_table"); auto kc = (const int64_t* (*)(int*))dlsym(h, "cutk_consts");
   if (ptab && kc) { c.ptable = ptab(&c.np); c.kconsts = kc(&c.nkc); }
+  auto stab = (const Cut::SEntry* (*)(int*))dlsym(h, "cuts_table"); if (stab) c.stable = stab(&c.ns);
   return true;
 }
 static inline CallResult cut_call_k(const Cut& c, int idx, int64_t a)
@@ -113,6 +116,14 @@ static inline CallResult cut_call_k(const Cut& c, int idx, int64_t a)
   CallResult r{0, 0};
   int j = sigsetjmp(g_jb, 0);
   if (j == 0) { g_in_call = 1; r.v = c.ktable[idx].fn(a, 0, 0); g_in_call = 0; }
+  else { g_in_call = 0; r.trap = j; }
+  return r;
+}
+static inline CallResult cut_call_s(const Cut& c, int idx, int64_t a)
+{
+  CallResult r{0, 0};
+  int j = sigsetjmp(g_jb, 0);
+  if (j == 0) { g_in_call = 1; r.v = c.stable[idx].fn(a, 0, 0); g_in_call = 0; }
   else { g_in_call = 0; r.trap = j; }
   return r;
 }
